@@ -93,6 +93,34 @@ example : ∃ text, yamlMarshalStream toyCodec [.int 1, .null, .int (-2)] = .ok 
   C05_yaml_stream_rt_inner_null toyCodec toyDom toyCodec_ok_yaml _ _ (by simp)
     (by simp [toyDom])
 
+/-- A part of the text that holds SEVERAL documents (`--- # comment`, `--- {a: 1}` and `--- ` start
+    a document without being separator lines): the reader returns all of them, in order — none is
+    dropped (the defect repaired by /repo 8a5c059 returned only the first). -/
+theorem C05_yaml_part_all_documents (c : Codec) (part : Lines) (ds : List Val)
+    (hsep : ∀ l ∈ part, sepYaml l = false) (hb : part.all blankLine = false)
+    (hd : c.decMany part = .ok ds) (hne : ds ≠ []) :
+    yamlUnmarshalStream c part = .ok ds := by
+  rw [yamlUnmarshalStream_eq, splitAt_block sepYaml part hsep]
+  simp only [List.mapM_cons, List.mapM_nil, yamlPartDocs_eq, hb, Bool.false_eq_true, if_false, hd,
+    s_bind_ok, s_pure]
+  cases ds with
+  | nil => exact absurd rfl hne
+  | cons d ds => simp [pure, Except.pure, bind, Except.bind]
+
+/-- non-vacuity: a codec whose decoder loop finds two documents in the three-line part -/
+example : yamlUnmarshalStream { toyCodec with decMany := fun _ => .ok [.int 1, .int 2] }
+    ["a: 1", "--- # next", "b: 2"] = .ok [.int 1, .int 2] :=
+  C05_yaml_part_all_documents _ _ _ (by decide)
+    (by rw [List.all_eq_false]; exact ⟨"a: 1", by simp, by rw [blankLine_eq]; decide⟩) rfl (by simp)
+
+/-- … and a part without any document (blank, or comments only) is one empty document -/
+theorem C05_yaml_part_no_document (c : Codec) (part : Lines)
+    (hsep : ∀ l ∈ part, sepYaml l = false) (hb : part.all blankLine = false)
+    (hd : c.decMany part = .ok []) :
+    yamlUnmarshalStream c part = .ok [.null] := by
+  rw [yamlUnmarshalStream_eq, splitAt_block sepYaml part hsep]
+  simp [List.mapM_cons, List.mapM_nil, yamlPartDocs_eq, hb, hd, pure, Except.pure, bind, Except.bind]
+
 /-! ## TOML -/
 
 theorem C05_toml_stream_rt (c : Codec) (dom : Val → Prop) (ok : CodecOK c sepToml dom)
